@@ -180,6 +180,13 @@ def run_shard(spec):
                          {"value": bad}, repr(got))
             except (ValueError, KeyError):
                 pass
+    if spec.get("non_nix"):
+        # the error deep inside well-formed nesting (beyond the interpreter's recursion limit):
+        # the pass-through must not depend on walking down to it
+        for depth in (200, 1200, 3000):
+            for pre, bad, suf in (("[ ", "1 2 =", " ]"), ("{ a = ", "1 2 =", "; }"), ("(", "1 +", ")"),
+                                  ("f (", "x y =", ")")):
+                check((pre * depth + bad + suf * depth).encode("utf-8"), "deep-nesting", f"depth-{depth}")
     for si, seed_text in enumerate(seeds(rng, spec["seeds"])):
         wal(f"seed {spec['seed']}:{si}")
         if cst.has_error(seed_text):
